@@ -365,6 +365,16 @@ pub fn vp8_filter_parameters(
     )
 }
 
+/// `Vp8Decoder::read_coefficients` called repeatedly on one partition (see `vp8::verif_read_coefficients`).
+pub fn vp8_read_coefficients(
+    data: &[u8],
+    probs: &[u8],
+    plane: usize,
+    calls: &[(usize, i16, i16)],
+) -> Vec<Result<(bool, [i32; 16]), DecodingError>> {
+    crate::vp8::verif_read_coefficients(data, probs, plane, calls)
+}
+
 /// One intra predictor of vp8.rs on a caller-supplied workspace (see `vp8::verif_predict` for `kind`).
 #[allow(clippy::too_many_arguments)]
 pub fn vp8_predict(
